@@ -76,7 +76,24 @@ def generate(rng, tier):
 
 
 def execute(cases, tier):
-    return corr.execute_run_family(__import__("props.C15", fromlist=["x"]), cases, tier)
+    res = corr.execute_run_family(__import__("props.C15", fromlist=["x"]), cases, tier)
+    # the threshold set through the API also governs the files run by the library's run_parallel (one runner per file):
+    # a result of 4 values against a threshold of 3 is compared through its digest line, never in full - and without a threshold in full
+    import hashlib
+    import vlib
+    line = "4 values hashing to " + hashlib.md5(b"1\n2\n3\n4\n").hexdigest()
+    obs = vlib.run_impl("parlib", [{"threshold": 3, "hash_line": line}])[0]
+    want = {"hashed_with_threshold": "pass", "full_with_threshold": "fail", "full_without_threshold": "pass", "hashed_without_threshold": "fail"}
+    got = {k: str(obs.get(k, "missing")).split(":")[0] for k in want}
+    res["stats"]["categories"]["run_parallel_api_threshold=%s" % ("ok" if got == want else "differs")] = 1
+    res["stats"]["evaluations"] += 4
+    if got != want:
+        res["disagreements"].append({"case": {"family": "parlib", "threshold": 3, "hash_line": line}, "impl": obs, "model": want,
+                                     "spec": "contradicts L1 (C15_threshold_scope): under Runner::run_parallel with with_hash_threshold(3) a result of 4 values "
+                                             "is judged %r, expected %r (digest line / full rows, with / without the threshold)" % (got, want),
+                                     "broken": "corr_C15_run_parallel"})
+        res["stats"]["disagreements"] = len(res["disagreements"])
+    return res
 
 
 def project(case, obs):
